@@ -15,5 +15,4 @@ CONSTANTS
   AllowAbort = FALSE
   GenDepth = 24
 INVARIANTS Emit RedirectExactly RecordTruth NoRecordOtherwise AgentUntouched
-CONSTRAINT Stop
 CHECK_DEADLOCK FALSE
